@@ -831,7 +831,47 @@ def rule_capacity_floor(ctx) -> None:
                               f"(max_entries must be >= {vmin}): the first insert pops from the empty container and the exception leaves the turn")
 
 
+def rule_contract_top(ctx) -> None:
+    """top-level scalar keys: every allowed top-level key that the engine hands to int() / float() is stored coerced by the
+    validator (`merged[k] = _coerce_int(...)`), like the nested numbers - otherwise an accepted config ('abc', None, a list)
+    raises on the first turn"""
+    vm = ctx.prog.module(V)
+    allowed: Set[str] = set()
+    for st in vm.tree.body:
+        if isinstance(st, ast.Assign) and any(isinstance(t, ast.Name) and t.id == "ALLOWED_TOP" for t in st.targets) and isinstance(st.value, (ast.Set, ast.List, ast.Tuple)):
+            allowed = {const_str(e) for e in st.value.elts if const_str(e)}
+    if not allowed:
+        raise AnalysisError("anchor-vanished: ALLOWED_TOP in configs/validate.py")
+    impl = ctx.func(IMPL)
+    coerced: Set[str] = set()
+    for x in walk_no_defs(impl.node):
+        if isinstance(x, ast.Assign) and isinstance(x.value, ast.Call) and call_tail(x.value) in ("_coerce_int", "_coerce_float", "_coerce_bool"):
+            for t in x.targets:
+                if isinstance(t, ast.Subscript) and isinstance(t.value, ast.Name) and const_str(t.slice) in allowed:
+                    coerced.add(const_str(t.slice))
+    reads: Dict[str, Tuple[Func, ast.AST]] = {}
+    for mn in sorted(ctx.prog.modules):
+        if not mn.startswith("clematis.engine"):
+            continue
+        for fn in ctx.prog.module(mn).funcs.values():
+            for x in walk_no_defs(fn.node):
+                if isinstance(x, ast.Call) and dotted(x.func) in ("int", "float") and x.args:
+                    a = x.args[0]
+                    k = None
+                    if isinstance(a, ast.Call) and call_tail(a) == "get" and a.args and const_str(a.args[0]) in allowed:
+                        k = const_str(a.args[0])
+                    elif isinstance(a, ast.Subscript) and const_str(a.slice) in allowed:
+                        k = const_str(a.slice)
+                    if k:
+                        reads.setdefault(k, (fn, x))
+    ctx.floor("C14.CONTRACT", "top-level configuration keys converted with int() / float() in the engine", len(reads), 1)
+    for k, (fn, x) in sorted(reads.items()):
+        ctx.check(k in coerced, "C14.CONTRACT", f"top/{k}", fn.loc(x), f"`{k}` is stored coerced by the validator",
+                  f"the engine converts the top-level key `{k}` with `{src(x)[:50]}` but the validator accepts it unchecked: a config with {k}: 'abc' / null / [1] is valid and the first turn raises")
+
+
 def run(ctx) -> None:
+    rule_contract_top(ctx)
     rule_capacity_floor(ctx)
     rule_pure(ctx)
     rule_api(ctx)
